@@ -565,3 +565,118 @@ Lemma judge_model U ops :
 Proof.
   intro Hwf. unfold judge_ops. apply trace_ok_iff. apply trace_eq; [apply Inv_init | exact Hwf].
 Qed.
+
+(* ------------------------------------------------------------------------------------------ *)
+(* several messages in flight: receipts per channel as multisets *)
+
+Lemma msg_eqb_eq (a b : msg) : msg_eqb a b = true <-> a = b.
+Proof.
+  destruct a as [[[s t] p] f], b as [[[s' t'] p'] f']. cbn [msg_eqb].
+  rewrite !andb_true_iff, !String.eqb_eq, !N.eqb_eq.
+  split; [intros [[[-> ->] ->] ->]; reflexivity | intro H; inversion H; tauto].
+Qed.
+
+Lemma msg_eqb_refl (a : msg) : msg_eqb a a = true.
+Proof. apply msg_eqb_eq. reflexivity. Qed.
+
+Lemma count_m_app x a b : count_m x (a ++ b) = (count_m x a + count_m x b)%nat.
+Proof. unfold count_m. rewrite filter_app, app_length. reflexivity. Qed.
+
+Lemma count_m_repeat x m n :
+  count_m x (repeat m n) = if msg_eqb x m then n else O.
+Proof.
+  unfold count_m. induction n as [|n IH]; cbn [repeat filter]; [destruct (msg_eqb x m); reflexivity|].
+  destruct (msg_eqb x m) eqn:E; cbn [List.length]; rewrite IH; reflexivity.
+Qed.
+
+Lemma count_m_not_in x l : ~ In x l -> count_m x l = O.
+Proof.
+  unfold count_m. induction l as [|y l IH]; intro H; [reflexivity|].
+  cbn [filter]. destruct (msg_eqb x y) eqn:E.
+  - apply msg_eqb_eq in E. subst y. exfalso. apply H. left. reflexivity.
+  - apply IH. intro Hin. apply H. right. exact Hin.
+Qed.
+
+(* the boolean multiset comparison decides "every message occurs equally often" *)
+Lemma mset_eqb_iff a b : mset_eqb a b = true <-> (forall x, count_m x a = count_m x b).
+Proof.
+  unfold mset_eqb. rewrite forallb_forall. split.
+  - intros H x. destruct (in_dec (fun u v => match bool_dec (msg_eqb u v) true with
+                                             | left e => left (proj1 (msg_eqb_eq u v) e)
+                                             | right n => right (fun e => n (proj2 (msg_eqb_eq u v) e))
+                                             end) x (a ++ b)) as [Hin|Hout].
+    + apply Nat.eqb_eq. apply H. exact Hin.
+    + rewrite !count_m_not_in; [reflexivity | |]; intro Hin; apply Hout; apply in_or_app; tauto.
+  - intros H x _. apply Nat.eqb_eq. apply H.
+Qed.
+
+Lemma mset_eqb_refl a : mset_eqb a a = true.
+Proof. apply mset_eqb_iff. reflexivity. Qed.
+
+Lemma all2_Forall2 {A B : Type} (f : A -> B -> bool) la : forall lb,
+  all2 f la lb = true <-> Forall2 (fun a b => f a b = true) la lb.
+Proof.
+  induction la as [|a la IH]; intros [|b lb]; cbn [all2].
+  - split; [constructor | reflexivity].
+  - split; [discriminate | intro H; inversion H].
+  - split; [discriminate | intro H; inversion H].
+  - rewrite andb_true_iff, IH. split; [intros [H1 H2]; constructor; assumption | intro H; inversion H; tauto].
+Qed.
+
+Lemma Forall2_weaken {A B : Type} (P Q : A -> B -> Prop) la : forall lb,
+  (forall a b, P a b -> Q a b) -> Forall2 P la lb -> Forall2 Q la lb.
+Proof. intros lb HPQ H. induction H; constructor; auto. Qed.
+
+Lemma recv_of_ext (f g : string -> N -> list N) msgs c :
+  (forall s t, f s t = g s t) -> recv_of f msgs c = recv_of g msgs c.
+Proof.
+  intro H. unfold recv_of. induction msgs as [|m r IH]; [reflexivity|].
+  cbn [flat_map]. rewrite H, IH. reflexivity.
+Qed.
+
+(* the spec, spelled out: channel c is entitled to message x (number of times x was sent) times
+   (number of live subscriptions c holds on x's session and type) - in particular to nothing of a
+   (session, type) it is not subscribed to *)
+Lemma count_m_cons x m r :
+  count_m x (m :: r) = ((if msg_eqb x m then 1 else 0) + count_m x r)%nat.
+Proof. unfold count_m. cbn [filter]. destruct (msg_eqb x m); reflexivity. Qed.
+
+Lemma recv_of_count subs msgs c s t p f :
+  count_m (s, t, p, f) (recv_of subs msgs c) = (count_m (s, t, p, f) msgs * copies c (subs s t))%nat.
+Proof.
+  unfold recv_of. induction msgs as [|m r IH]; [reflexivity|].
+  cbn [flat_map]. rewrite count_m_app, IH, count_m_repeat, count_m_cons.
+  destruct (msg_eqb (s, t, p, f) m) eqn:E.
+  - apply msg_eqb_eq in E. subst m. cbn [fst snd]. lia.
+  - lia.
+Qed.
+
+Lemma fan_refinement ops msgs c :
+  wf_ops ops = true ->
+  recv_c (fst (run_c unwrap c_init ops)) msgs c = recv_a (fst (run_a a_init ops)) msgs c.
+Proof.
+  intro Hwf. unfold recv_c, recv_a. apply recv_of_ext. intros s t. apply subscribers_spec. exact Hwf.
+Qed.
+
+Lemma fan_judge_model ops msgs chans :
+  wf_ops ops = true ->
+  judge_fan ops msgs chans (map (recv_c (fst (run_c unwrap c_init ops)) msgs) chans) = true.
+Proof.
+  intro Hwf. unfold judge_fan, fan_ok. apply all2_Forall2.
+  induction chans as [|c r IH]; cbn [map]; constructor; [|exact IH].
+  rewrite (fan_refinement ops msgs c Hwf). apply mset_eqb_refl.
+Qed.
+
+Lemma fan_judge_sound ops msgs chans impl :
+  judge_fan ops msgs chans impl = true <->
+  Forall2 (fun c got => forall s t p f,
+             count_m (s, t, p, f) got =
+             (count_m (s, t, p, f) msgs * copies c (spec_subscribers s t (fst (run_a a_init ops))))%nat)
+          chans impl.
+Proof.
+  unfold judge_fan, fan_ok. rewrite all2_Forall2.
+  split; intro H; (eapply Forall2_weaken; [|exact H]); cbn beta; intros c got Hc.
+  - intros s t p f. apply mset_eqb_iff with (x := (s, t, p, f)) in Hc. rewrite <- Hc.
+    unfold recv_a. apply recv_of_count.
+  - apply mset_eqb_iff. intros [[[s t] p] f]. rewrite Hc. unfold recv_a. apply recv_of_count.
+Qed.
